@@ -75,7 +75,49 @@ async fn write_real(
     Ok(())
 }
 
+/// {"k":"flush_ack","n":records,"size":bytes of each value}: the real SnapshotWriterACTOR, the way
+/// do_build_snapshot uses it: records, ONE Flush; at the moment the answer to Flush arrives, how many bytes of the file
+/// are on disk?  (the catalogue is saved right after that answer: it must never name an incomplete file)
+fn run_flush_ack(case: &Value) -> anyhow::Result<Value> {
+    use actix::Actor;
+    use rnacos::raft::filestore::raftsnapshot::{SnapshotWriterActor, SnapshotWriterRequest};
+    let n = case["n"].as_u64().unwrap_or(3) as usize;
+    let size = case["size"].as_u64().unwrap_or(100) as usize;
+    let dir = tempfile::tempdir()?;
+    let path = Arc::new(dir.path().join("snapshot_1").to_string_lossy().into_owned());
+    let header = header_of(&json!({"last_index": 1, "last_term": 1, "member": [1]}));
+    let mut want = smutil::header_frame(&header).len();
+    let recs: Vec<SnapshotRecordDto> = (0..n)
+        .map(|i| SnapshotRecordDto {
+            tree: Arc::new("T_X".to_string()),
+            key: format!("k{}", i).into_bytes(),
+            value: vec![(i % 251) as u8; size],
+            op_type: 0,
+        })
+        .collect();
+    for r in &recs {
+        want += smutil::record_frame(&r.tree, &r.key, &r.value).len();
+    }
+    let p2 = path.clone();
+    let sys = actix_rt::System::new();
+    let (at_ack, later) = sys.block_on(async move {
+        let w = SnapshotWriterActor::new(p2.clone(), header).start();
+        for r in recs {
+            w.send(SnapshotWriterRequest::Record(r)).await.ok();
+        }
+        w.send(SnapshotWriterRequest::Flush).await.ok();
+        let at_ack = std::fs::metadata(p2.as_str()).map(|m| m.len()).unwrap_or(0);
+        tokio::time::sleep(std::time::Duration::from_millis(300)).await;
+        let later = std::fs::metadata(p2.as_str()).map(|m| m.len()).unwrap_or(0);
+        (at_ack, later)
+    });
+    Ok(json!({"r": "ok", "want": want, "at_ack": at_ack, "later": later}))
+}
+
 fn run_case(case: &Value) -> anyhow::Result<Value> {
+    if case["k"].as_str() == Some("flush_ack") {
+        return run_flush_ack(case);
+    }
     let dir = tempfile::tempdir()?;
     let path = dir.path().join("snapshot_1").to_string_lossy().into_owned();
     let header = header_of(&case["hdr"]);
